@@ -47,6 +47,7 @@ INVARIANTS
   C05_MnWorkersIdle
   C01_OutcomeAtRest
   C02_QuiescentOk
+  C08_OthersNotStuck
   J_RestoreSucceeds
   J_OutcomesRestored
   J_InstFresh
